@@ -638,6 +638,7 @@ func validatedValue(w *World, f *ssa.Function, v ssa.Value, depth int) bool {
 		found := false
 		var walk func(c ssa.Value, d int)
 		walk = func(c ssa.Value, d int) {
+			raw := stripConv(c)
 			c = resolve(c)
 			if d > 5 || found {
 				return
@@ -645,6 +646,17 @@ func validatedValue(w *World, f *ssa.Function, v ssa.Value, depth int) bool {
 			if c == x || equivValue(c, x) {
 				found = true
 				return
+			}
+			// the whole write-once local struct is examined and x is one of its fields
+			if la, ok := loadOf(raw); ok {
+				if al, isAl := la.(*ssa.Alloc); isAl && writeOnceStruct(al) {
+					if lx, ok := loadOf(x); ok {
+						if fa, isFA := lx.(*ssa.FieldAddr); isFA && fa.X == ssa.Value(al) {
+							found = true
+							return
+						}
+					}
+				}
 			}
 			switch y := c.(type) {
 			case *ssa.BinOp:
